@@ -237,7 +237,7 @@ def _run(R):
     R.require("schema-valid")
     R.assumptions = ["pinned copies of FIRST's cvss-v2.0/3.0/3.1/4.0 JSON schemas (sha256 in DESIGN.md); jsonschema's "
                      "Draft4/Draft7 validators; multipleOf evaluated in exact decimal"]
-    n = R.pick(1500, 30000)
+    n = R.pick(1500, 120000)
     for ver in T.VERSIONS:
         R.pmap("shard", [(ver, i, 16, n, R.seed) for i in range(16)])
     for tag in ("2.0", "3.0", "3.1"):
